@@ -555,7 +555,9 @@ func runC10(c *Ctx) {
 	{
 		sub := NewCtx(p, "C20", c.Tier, c.Config)
 		c20LastEngine = nil
+		shareDepth++
 		runC20(sub)
+		shareDepth--
 		if c20LastEngine == nil {
 			c.Anchor("collector run loop typestate")
 		} else {
